@@ -9,7 +9,6 @@ from .core import Cond, SymBool, _lc
 
 class PW:
     __slots__ = ("cases",)
-    __array_priority__ = 1500
 
     def __init__(self, cases):
         self.cases = {k: g for k, g in cases.items() if not (g.kind == "c" and not g.a)}
